@@ -77,6 +77,9 @@ CANARIES = [
     ('wasm_radix4', 'S', r'idx \+= (\d) \* 2;', r'idx += \1 * 2 + 1;', 'butterfly_4'),
     ('wasm_radix4', 'S', r'for k in 1\.\.ROW_COUNT', 'for k in 0..ROW_COUNT', 'new'),
     ('sse_radix4', 'S', r'idx \+= (\d) \* 2;', r'idx += \1 * 2 + 1;', 'butterfly_4'),
+    ('avx_bluesteins', 'S', r'let chunk_count = div_ceil\(len, (\d)\);', r'let chunk_count = len / \1;', 'new_with_avx'),
+    ('avx_bluesteins', 'S', r'let required_scratch = inner_fft_input\.len\(\) \+ inner_fft_scratch\.len\(\);', 'let required_scratch = inner_fft_input.len();', 'new_with_avx'),
+    ('avx_bluesteins', 'S', r'inner_fft_input\[inner_fft_len - i\] = twiddle;', 'inner_fft_input[inner_fft_len - i + 1] = twiddle;', 'new_with_avx'),
     ('sse_radix4', 'S', r'let twiddle_offset = num_vector_columns \* \(ROW_COUNT - 1\);', 'let twiddle_offset = num_vector_columns * ROW_COUNT;', 'perform_fft_immut'),
     ('partial_factors', 'S', r'power3: self\.power3 - divisor\.power3,', 'power3: self.power3 - divisor.power2,', 'divide_by'),
     ('prime_roots', 'S', r'divisor \+= 2;', 'divisor += 4;', 'distinct_prime_factors'),
